@@ -18,6 +18,7 @@
 From TV Require Import Base.Result Core.Types Packet.Checksum
   Net.Wire Net.Rfc Net.Sock Net.Dispatch4 Net.Dispatch6 Net.ChannelSend Net.SendSpec
   Proofs.Dispatch4Proofs Proofs.Dispatch6Proofs Proofs.ChannelSendProofs.
+From TV Require Core.TracerState Core.Strategy Proofs.StrategyInv Proofs.StrategyProps.
 
 (* ---- ICMP / IPv4: one send_to; RFC 791 header as configured, DF set, total length = byte count = packet
    size; RFC 792 echo request with the trace identifier, the sequence, the pattern payload, valid checksum ---- *)
@@ -270,10 +271,11 @@ Theorem c11_adjust_length : forall v, 0 <= v < 65536 ->
   adjust_length BoHost (adjust_length BoHost v) = v.
 Proof. exact c11_adjust_length_lemma. Qed.
 
-(* ---- KNOWN FINDING (not repaired): Paris over IPv6 puts the sequence into the UDP checksum field, and
-   sequence 0 is issuable (initial_sequence = 0 is accepted by the builder): the field is then zero, which
-   RFC 8200 8.1 forbids (receivers discard the datagram).  The clause "checksum field <> 0" of
-   c11_udp_ipv6_classic / _dublin therefore cannot be stated for Paris; witness: ---- *)
+(* ---- F14 (repaired by a builder check): Paris over IPv6 puts the sequence into the UDP checksum field, and a
+   field of zero is forbidden by RFC 8200 8.1 (receivers discard the datagram).  Sequence 0 was issuable exactly
+   when initial_sequence = 0, which Builder::build now refuses for this cell; every sequence the strategy
+   issues is then >= 1 (c11_paris6_sequence_nonzero), so by c11_udp_ipv6_paris the field is never zero.
+   What a zero sequence would put on the wire (the reason for the check): ---- *)
 Theorem c11_udp_ipv6_paris_sequence_zero_refuted :
   let cfg := {| cc_privilege := Privileged; cc_protocol := Udp;
                 cc_source := [32;1;13;184;0;0;0;0;0;0;0;0;0;0;0;1];
@@ -286,6 +288,12 @@ Theorem c11_udp_ipv6_paris_sequence_zero_refuted :
               (connect_ops true cfg ++ [SetUnicastHopsV6 1; SendTo u (cc_target cfg) 0], Ok tt) /\
             ud_checksum (rfc768_decode u) = 0.
 Proof. exact c11_paris6_zero_lemma. Qed.
+
+Theorem c11_paris6_sequence_nonzero : forall c s i s' ev e,
+  StrategyInv.Accept c -> StrategyProps.reach c s -> proto c = Udp -> multipath c = Paris -> is_v6 (target_addr c) = true ->
+  Strategy.step c s i = Ok (s', ev, e) ->
+  Forall (fun q => 1 <= q) (map p_sequence (StrategyInv.ev_probes ev)).
+Proof. exact StrategyProps.paris6_sequence_nonzero_lemma. Qed.
 
 (* ---- non-vacuity ---- *)
 Definition ex_cfg4 : chan_cfg :=
